@@ -296,20 +296,22 @@ class Runner:
         self.check_view(cl, 'step', obs, info)
 
     def op_switch(self, cl, which, name):
+        # a user holding the wrapper switches through the wrapper (attribute forwarding), others on the env
+        target = cl.w if (cl.w is not None and (self.op_index + len(name)) % 2 == 0) else cl.g
         if which == 'observation':
-            r = sut(cl.g.set_observation_representation, name)
+            r = sut(lambda: target.set_observation_representation(name))
             if isinstance(r, Raised):
                 self.violate('switch_raised', 'set_observation_representation', r.type, repr(r))
                 return
             cl.orep_name, cl.orep = name, cl.mk_o(name)
         else:
-            r = sut(cl.g.set_state_representation, name)
+            r = sut(lambda: target.set_state_representation(name))
             if isinstance(r, Raised):
                 self.violate('switch_raised', 'set_state_representation', r.type, repr(r))
                 return
             cl.srep_name, cl.srep = name, cl.mk_s(name)
         cl.prev_eo = None
-        self.ctx.probe('representation_switch')
+        self.ctx.probe('representation_switch' + ('_via_wrapper' if target is cl.w else ''))
         self.ctx.fault('representation_switch_mid_episode') if cl.started else None
         self.op_spaces(cl, 0)
 
@@ -341,7 +343,7 @@ class Runner:
 
 def execute(record, ctx):
     Runner(record, ctx).run()
-    if ctx.ticks >= 10 and ctx.stats.get('probe:step') and (ctx.stats.get('probe:representation_switch') or ctx.stats.get('probe:wrapper_op')):
+    if ctx.ticks >= 10 and ctx.stats.get('probe:step') and (ctx.stats.get('probe:representation_switch') or ctx.stats.get('probe:representation_switch_via_wrapper') or ctx.stats.get('probe:wrapper_op')):
         ctx.distinct.add(ctx.trace_digest())
     ctx.sample = {'clients': record['clients'], 'ops_head': record['ops'][:14], 'n_ops': len(record['ops'])}
 
